@@ -82,6 +82,44 @@ def _preds(b, o):
     return [(i, tg, p) for i, blk in enumerate(b.blocks) if blk['t']['k'] == 'switch' and i in b.live_blocks() for tg, p in flow.switch_edge_predicates(b, i, o)]
 
 
+def _derives_from(b, name, depth=6):
+    """Names of the user variables that `name` derives from through a chain of named variables (loop iterators, `?` temporaries, pattern bindings), nearest first —
+    util.var_chain_reaches, but returning what is reached instead of asking for a target by its source name."""
+    ov = flow.Origin(b, stop_at_vars=True)
+    seen, work, out = set(), [name], []
+    for _ in range(depth):
+        nxt = []
+        for n in work:
+            if n in seen:
+                continue
+            seen.add(n)
+            for l in b.var_local(n):
+                for m in re.findall(r'var:(\w+)', flow.render(ov.of_local(l))):
+                    if m not in out:
+                        out.append(m)
+                    nxt.append(m)
+        work = nxt
+        if not work:
+            break
+    return out
+
+
+def _count_of(b, f, name):
+    """Rendering of `name`'s definition when `name` is a single-assignment variable holding a neighbour count (count_unchecked(..)), else ''."""
+    ls = b.var_local(name)
+    if len(ls) != 1:
+        return ''
+    r = flow.render(f.ov.of_local(ls[0]))
+    return r if r.startswith('PackedLevel0::count_unchecked(') else ''
+
+
+def _bind_roles(ctx, prog):
+    """Roles of /repo locals the structural facts of R1 talk about, found by what defines / uses them (a pure rename in /repo changes nothing for the rules).
+    Runs before any Origin of these bodies exists."""
+    pr = prog.find('FlatSearchScratch::prepare') if hasattr(prog, 'find') else None
+    return pr
+
+
 def r1(ctx, prog):
     ctx.rule('C17.R1', 'validated dense id: every id passed to an unchecked accessor is below the node count on every path (edge `id < n`, normal return of a '
                        'checked accessor, valid variable, item popped from the scratch heaps after prepare(), element of a container that only receives '
